@@ -403,6 +403,10 @@ def load_supplemental_sources(config, config_dir):
                 if format_spec.custom_captures:
                     for name, col_idx in format_spec.custom_captures.items():
                         column_map[name.lower()] = col_idx
+                # With {description} in the format the named columns are extra_fields
+                if format_spec.extra_fields:
+                    for name, col_idx in format_spec.extra_fields.items():
+                        column_map[name.lower()] = col_idx
 
                 # Add standard columns
                 column_map['date'] = format_spec.date_column
